@@ -118,6 +118,9 @@ pub struct TaskSnap {
 struct Pending {
     b: *mut (dyn FnMut() + Send),
     done: bool,
+    /// logical times of the fork and of the return of the join that forked this task
+    fork: usize,
+    task: Option<usize>,
 }
 
 #[derive(Default)]
@@ -130,6 +133,10 @@ struct Explorer {
     trace: Vec<(usize, usize)>,
     /// tasks in start order, with the nest they ran in
     started: Vec<(usize, usize)>,
+    /// logical clock and (task, fork time, join-return time)
+    clock: usize,
+    intervals: Vec<(usize, usize, usize)>,
+    running: Option<usize>,
     nest: usize,
     in_nest: bool,
     diverged: bool,
@@ -149,6 +156,11 @@ fn task_started(idx: usize) {
             if e.active {
                 let n = e.nest;
                 e.started.push((idx, n));
+                if let Some(p) = e.running {
+                    if p < e.pending.len() {
+                        e.pending[p].task = Some(idx);
+                    }
+                }
             }
         }
     });
@@ -192,7 +204,9 @@ fn handler(a: &mut (dyn FnMut() + Send), b: &mut (dyn FnMut() + Send)) -> bool {
         }
         e.depth += 1;
         *e.forks_per_nest.last_mut().unwrap() += 1;
-        e.pending.push(Pending { b: bptr, done: false });
+        e.clock += 1;
+        let now = e.clock;
+        e.pending.push(Pending { b: bptr, done: false, fork: now, task: None });
         e.pending.len() - 1
     });
     // the continuation side may panic (only through tasks it ran itself); mirror rayon: finish the
@@ -211,6 +225,7 @@ fn handler(a: &mut (dyn FnMut() + Send), b: &mut (dyn FnMut() + Send)) -> bool {
             let p = EXP.with(|e| {
                 let mut e = e.borrow_mut();
                 e.pending[i].done = true;
+                e.running = Some(i);
                 e.pending[i].b
             });
             let r = std::panic::catch_unwind(std::panic::AssertUnwindSafe(|| unsafe { (*p)() }));
@@ -223,6 +238,12 @@ fn handler(a: &mut (dyn FnMut() + Send), b: &mut (dyn FnMut() + Send)) -> bool {
     }
     EXP.with(|e| {
         let mut e = e.borrow_mut();
+        // this join returns now: its own task may have overlapped everything forked before this moment
+        e.clock += 1;
+        let now = e.clock;
+        if let (Some(t), f) = (e.pending[my].task, e.pending[my].fork) {
+            e.intervals.push((t, f, now));
+        }
         e.depth -= 1;
         if e.depth == 0 {
             e.in_nest = false;
@@ -241,6 +262,8 @@ pub fn install_handler() {
 
 #[derive(Clone, Debug, Default)]
 pub struct RunTrace {
+    /// (task, fork time, join-return time) on a logical clock
+    pub intervals: Vec<(usize, usize, usize)>,
     pub trace: Vec<(usize, usize)>,
     /// (task idx, nest ordinal starting at 1) in start order
     pub started: Vec<(usize, usize)>,
@@ -261,7 +284,7 @@ pub fn run_controlled(prefix: &[(usize, usize)], f: impl FnOnce()) -> RunTrace {
         // everything the explorer allocated during this execution is released here, inside the same
         // arena epoch (a later release would alias blocks of the next execution)
         let mut old = std::mem::take(&mut *e.borrow_mut());
-        RunTrace { trace: std::mem::take(&mut old.trace), started: std::mem::take(&mut old.started), nests: old.nest, diverged: old.diverged }
+        RunTrace { intervals: std::mem::take(&mut old.intervals), trace: std::mem::take(&mut old.trace), started: std::mem::take(&mut old.started), nests: old.nest, diverged: old.diverged }
     })
 }
 
@@ -404,6 +427,110 @@ pub struct TaskDesc {
     /// (object, writes): objects 0..3 = components A,B,C; 10,11 = resources R0,R1
     pub access: Vec<(u8, bool)>,
     pub par: bool,
+    /// components required by non-optional iterator views (bit mask)
+    pub req: u8,
+    /// filter: (0 none, 1 Has, 2 Not<Has>), component index
+    pub filt: (u8, u8),
+    /// components named by the entry views (bit mask)
+    pub entry: u8,
+}
+
+impl TaskDesc {
+    /// Does this task claim the table with component set `mask`?  (iterator views and filter match, or any
+    /// entry-view component is present)
+    pub fn claims_table(&self, mask: u8) -> bool {
+        let f = match self.filt.0 {
+            0 => true,
+            1 => mask >> self.filt.1 & 1 == 1,
+            _ => mask >> self.filt.1 & 1 == 0,
+        };
+        (mask & self.req == self.req && f) || (mask & self.entry != 0)
+    }
+    fn claim(&self, obj: u8) -> u8 {
+        // 0 none, 1 immutable, 2 mutable
+        let mut c = 0;
+        for (o, w) in &self.access {
+            if *o == obj {
+                c = c.max(if *w { 2 } else { 1 });
+            }
+        }
+        c
+    }
+}
+
+fn merge_claim(a: u8, b: u8) -> Option<u8> {
+    match (a, b) {
+        (0, x) | (x, 0) => Some(x),
+        (1, 1) => Some(1),
+        _ => None,
+    }
+}
+
+/// Reference model of the stage runner: static stages = greedy groups; at the end of each stage the tasks of
+/// the next stage are started early, in order, when their resource claims and their per-table component claims
+/// merge with everything accumulated so far (only if the running stage claimed at least one table).
+pub fn model_nests(tasks: &[TaskDesc], groups: &[usize], tables: &[u8]) -> Vec<Vec<usize>> {
+    let ngroups = groups.iter().max().map_or(0, |g| g + 1);
+    let mut has_run = vec![false; tasks.len()];
+    let mut nests = Vec::new();
+    for k in 0..ngroups {
+        let members: Vec<usize> = (0..tasks.len()).filter(|&t| groups[t] == k && !has_run[t]).collect();
+        if members.is_empty() {
+            continue;
+        }
+        let mut nest = members.clone();
+        let mut borrowed: std::collections::BTreeMap<u8, [u8; 3]> = Default::default();
+        let mut res = [0u8; 2];
+        for &t in &members {
+            for &m in tables {
+                if tasks[t].claims_table(m) {
+                    let e = borrowed.entry(m).or_insert([0; 3]);
+                    for c in 0..3 {
+                        e[c] = merge_claim(e[c], tasks[t].claim(c as u8)).unwrap_or(2);
+                    }
+                }
+            }
+            for r in 0..2 {
+                res[r] = merge_claim(res[r], tasks[t].claim(10 + r as u8)).unwrap_or(2);
+            }
+        }
+        if !borrowed.is_empty() {
+            for t in (0..tasks.len()).filter(|&t| groups[t] == k + 1) {
+                let mut r2 = res;
+                let mut ok = true;
+                for r in 0..2 {
+                    match merge_claim(r2[r], tasks[t].claim(10 + r as u8)) {
+                        Some(x) => r2[r] = x,
+                        None => ok = false,
+                    }
+                }
+                if !ok {
+                    continue;
+                }
+                // the merged resource claims are passed on even when the table claims are refused (stage.rs)
+                res = r2;
+                let mut b2 = borrowed.clone();
+                for &m in tables {
+                    if tasks[t].claims_table(m) {
+                        let e = b2.entry(m).or_insert([0; 3]);
+                        for c in 0..3 {
+                            match merge_claim(e[c], tasks[t].claim(c as u8)) {
+                                Some(x) => e[c] = x,
+                                None => ok = false,
+                            }
+                        }
+                    }
+                }
+                if ok {
+                    borrowed = b2;
+                    nest.push(t);
+                    has_run[t] = true;
+                }
+            }
+        }
+        nests.push(nest);
+    }
+    nests
 }
 
 pub fn greedy_groups(tasks: &[TaskDesc]) -> Vec<usize> {
@@ -594,6 +721,32 @@ pub fn explore_schedule(
                     }
                     if inert && ord(n) != groups[i] {
                         push(Finding { prop: "C12", key: "static-stage-differs-from-greedy".into(), detail: format!("{} on the empty world: task {} ({}) ran in nest {} but greedy group is {}", run.name, i, run.tasks[i].label, ord(n), groups[i]) }, replay.clone(), findings);
+                    }
+                }
+                // --- C12: conformance with the reference model of the stage runner on every world: the partition of
+                // the tasks into fork/join nests (static stages + tasks started early) must be the predicted one
+                let tables: Vec<u8> = (0..8u8).filter(|&m| spec.arch[m as usize] != 0).collect();
+                let expected = model_nests(&run.tasks, &groups, &tables);
+                let mut observed: Vec<Vec<usize>> = distinct_nests.iter().map(|&n| { let mut v: Vec<usize> = nest_of.iter().filter(|(_, &x)| x == n).map(|(&t, _)| t).collect(); v.sort(); v }).collect();
+                let mut exp_sorted: Vec<Vec<usize>> = expected.iter().map(|v| { let mut v = v.clone(); v.sort(); v }).collect();
+                if observed != exp_sorted {
+                    // which direction?  a task placed later than predicted is a lost opportunity (C12); a task placed
+                    // earlier than predicted is judged by C07/C08 on the same run
+                    let ord_of = |nests: &Vec<Vec<usize>>, t: usize| nests.iter().position(|v| v.contains(&t));
+                    let later: Vec<usize> = (0..ntasks).filter(|&t| ord_of(&observed, t) > ord_of(&exp_sorted, t)).collect();
+                    let split: bool = exp_sorted.iter().any(|g| g.len() > 1 && !observed.iter().any(|o| g.iter().all(|t| o.contains(t))));
+                    if !later.is_empty() || split {
+                        push(Finding { prop: "C12", key: "tasks-not-placed-where-the-reference-scheduler-places-them".into(), detail: format!("{} on world [{}]: nests observed {:?}, reference model {:?}", run.name, spec.describe(), observed, exp_sorted) }, replay.clone(), findings);
+                    }
+                }
+                observed.clear();
+                exp_sorted.clear();
+                // tasks of one nest must really be allowed to overlap: their fork/join intervals intersect pairwise
+                for (i, &(ta, fa, ja)) in trace.intervals.iter().enumerate() {
+                    for &(tb, fb, jb) in trace.intervals.iter().skip(i + 1) {
+                        if nest_of.get(&ta) == nest_of.get(&tb) && groups[ta] == groups[tb] && !(fa < jb && fb < ja) {
+                            push(Finding { prop: "C12", key: "tasks-of-one-stage-are-serialised".into(), detail: format!("{} on world [{}]: tasks {} ({}) and {} ({}) are forked and joined one after the other (intervals {:?} and {:?})", run.name, spec.describe(), ta, run.tasks[ta].label, tb, run.tasks[tb].label, (fa, ja), (fb, jb)) }, replay.clone(), findings);
+                        }
                     }
                 }
                 if nest_of.len() != ntasks {
